@@ -85,7 +85,12 @@ func (r *RedundantWhitespaceRule) Check(ctx *linter.Context) ([]linter.Violation
 				// Skip leading indentation: everything before the match is
 				// whitespace (spaces after a tab are still indentation; Fix
 				// preserves the whole leading whitespace)
-				if strings.TrimLeft(line[:column-1], " \t") == "" {
+				prefixEnd := column - 1
+				if prefixEnd > len(line) {
+					// invalid UTF-8 is widened to U+FFFD in part.text, so offsets can exceed the line
+					prefixEnd = len(line)
+				}
+				if strings.TrimLeft(line[:prefixEnd], " \t") == "" {
 					continue
 				}
 
